@@ -783,11 +783,14 @@ impl<T: Serialize + for<'de> Deserialize<'de> + Clone + PartialEq + Send + Sync 
                     serialized_value,
                 )?);
             }
+            // The marker names how many records it commits, so a group that lost a
+            // member to damage is recognised and dropped as a whole.
+            let record_count = (entries.len() as u64).to_le_bytes().to_vec();
             entries.push(self.create_wal_entry(
                 transaction_id,
                 TransactionType::Checkpoint,
                 BATCH_COMMIT_KEY.to_string(),
-                None,
+                Some(record_count),
             )?);
 
             let mut writer = self.wal_writer.lock().map_err(|_| {
@@ -1148,8 +1151,6 @@ impl<T: Serialize + for<'de> Deserialize<'de> + Clone + PartialEq + Send + Sync 
             let entry: WalEntry = match postcard::from_bytes(&buffer) {
                 Ok(e) => e,
                 Err(_) => {
-                    // a damaged record may have belonged to the pending batch
-                    pending_batch = None;
                     stats.corruption_events.push(CorruptionEvent {
                         file_path: path.to_path_buf(),
                         corruption_type: CorruptionType::InvalidFormat,
@@ -1163,8 +1164,6 @@ impl<T: Serialize + for<'de> Deserialize<'de> + Clone + PartialEq + Send + Sync 
 
             // Verify HMAC
             if !self.verify_wal_entry(&entry) {
-                // a damaged record may have belonged to the pending batch
-                pending_batch = None;
                 stats.corruption_events.push(CorruptionEvent {
                     file_path: path.to_path_buf(),
                     corruption_type: CorruptionType::ChecksumMismatch,
@@ -1204,7 +1203,9 @@ impl<T: Serialize + for<'de> Deserialize<'de> + Clone + PartialEq + Send + Sync 
                 Some((id, items))
                     if entry.transaction_type == TransactionType::Checkpoint
                         && entry.key == BATCH_COMMIT_KEY
-                        && id == entry.transaction_id =>
+                        && id == entry.transaction_id
+                        && entry.value.as_deref()
+                            == Some((items.len() as u64).to_le_bytes().as_slice()) =>
                 {
                     Some(items)
                 }
